@@ -274,3 +274,73 @@ example :
     let s := brun {} [.create]
     s.db = some ⟨.active, 0⟩ ∧ s.wfUp = true ∧ s.inbox = [] ∧ s.rel 0 = .absent ∧ s.crashed 0 = false ∧ s.res 1 = .absent := by
   decide
+
+/-- **a release that has begun is not abandoned** (guard: the row exists — see above — and no process crash): along every
+schedule without `rCrash`, whenever the row says `releasing` it is held by a live releaser that is either about to send
+TickIdleRelease — and that send is enabled and puts the tick into the workflow's inbox — or has sent it and completes
+(`→ released`) as soon as the workflow incarnation it was sent to is gone.  No tick consumed by the run, no other sender and
+no other timer can take the releaser out of this path: the model has no such action, and that the code has none is what
+`C36_source_shape` re-extracts (`_deferred_release` pops its own entry from `_deferred_release_tasks` *before* it starts the
+release, so `_cancel_deferred_release` — called on every received tick, on every new idle announcement and by `_do_resume` —
+cannot reach it any more).  The row therefore never stays `releasing` behind a dead release. -/
+theorem C36_dbos_release_not_abandoned (acts : List BAct) (hc : ∀ a ∈ acts, ∀ i, a ≠ .rCrash i) :
+    let s := brun {} acts
+    (∀ i, s.crashed i = false) ∧
+    ∀ r, s.db = some r → r.st = .releasing →
+      ∃ i, s.holder = some i ∧
+        ((s.rel i = .won r.upd ∧ (bstepD s (.rSend i)).rel i = .sentRelease r.upd s.wfInc ∧
+            (bstepD s (.rSend i)).inbox = s.inbox ++ [.idleRelease] ∧ (bstepD s (.rSend i)).db = s.db) ∨
+         (∃ inc, s.rel i = .sentRelease r.upd inc ∧
+            ((inc ≠ s.wfInc ∨ s.wfUp = false) →
+              (bstepD s (.rComplete i)).db = some ⟨.released, s.now⟩ ∧ (bstepD s (.rComplete i)).rel i = .done))) := by
+  intro s
+  have hn : NoCrash s := NoCrash.run acts {} NoCrash.init hc
+  have hb : BInv s := BInv.run acts {} BInv.init
+  refine ⟨hn, ?_⟩
+  intro r hdb hst
+  have hr := hb.rinv r hdb hst
+  cases hho : s.holder with
+  | none => rw [hho] at hr; cases hr
+  | some i =>
+    rw [hho] at hr
+    refine ⟨i, rfl, ?_⟩
+    have hci : s.crashed i = false := hn i
+    unfold relAt at hr
+    cases hrel : s.rel i with
+    | won t =>
+      have ht : t = r.upd := by simpa [hrel] using hr
+      subst ht
+      left
+      refine ⟨rfl, ?_, ?_, ?_⟩ <;> simp [bstepD, bstep, hrel, hci, upd_apply]
+    | sentRelease t inc =>
+      have ht : t = r.upd := by simpa [hrel] using hr
+      subst ht
+      right
+      refine ⟨inc, rfl, ?_⟩
+      intro hgone
+      have hcond : (s.crashed i || (inc == s.wfInc && s.wfUp)) = false := by
+        rcases hgone with h | h
+        · simp [hci, h]
+        · simp [hci, h]
+      obtain ⟨st, u⟩ := r
+      simp only at hst
+      subst hst
+      simp [bstepD, bstep, hrel, hcond, hdb, dbCompleteRelease, upd_apply]
+    | absent => simp [hrel] at hr
+    | start => simp [hrel] at hr
+    | done => simp [hrel] at hr
+    | lostCas => simp [hrel] at hr
+
+/-- non-vacuity: a tick that passed the lifecycle check while the row said `active` is consumed by the run between the
+releaser's CAS and its TickIdleRelease; the release still completes and the next sender reloads -/
+example :
+    let acts := [BAct.create, .uSpawn 0, .uTry 0, .rSpawn 0, .rBegin 0, .uSend 0, .wfStep]
+    let s := brun {} acts
+    s.db = some ⟨.releasing, 0⟩ ∧ s.holder = some 0 ∧ s.rel 0 = .won 0 ∧ s.processed = [0] ∧
+      (brun s [.rSend 0, .wfStep, .rComplete 0]).db = some ⟨.released, 0⟩ ∧ (brun s [.rSend 0, .wfStep, .rComplete 0]).wfUp = false := by
+  decide
+
+example : ∀ a ∈ [BAct.create, .uSpawn 0, .uTry 0, .rSpawn 0, .rBegin 0, .uSend 0, .wfStep], ∀ i, a ≠ BAct.rCrash i := by
+  intro a ha i h
+  subst h
+  simp at ha
